@@ -57,6 +57,12 @@ CHECKS = {
  "C18": ("progsim", "runtime monitoring: clock-bracket oracle on every delivered record",
   "durations must lie within harness Instant brackets around creation and finish (tolerance 200 us + 0.1%), begin times within the wall-clock window of the creating call, local spans nest and do not overlap, events lie in their span, elapsed() within its bracket; seeded spins of up to 3 ms separate events; a cycle (own clock anchor) may fall anywhere.",
   "TSC-based fastant clock calibrated to 1e-5; tolerances two orders above that", "DESIGN.md §5 C18"),
+ "C19": ("wire", "runtime monitoring: conformance oracle with independent Thrift-compact / msgpack decoders on loopback sockets and a capturing SpanExporter",
+  "every record of random batches must arrive exactly once, in order, with ids, name, times (us for Jaeger, ns otherwise), properties and events unchanged and on the right span, in bytes that independent decoders accept without trailing data (emitBatch oneway message; msgpack [[span..]] with struct maps; SpanData).",
+  "times near u64::MAX (begin + duration overflow) are outside the stated input space; loopback datagram loss is told apart from reporter loss by re-sending", "DESIGN.md §5 C19"),
+ "C20": ("wire", "runtime monitoring: datagram-size and exactly-once oracle over boundary-tuned batches on loopback UDP",
+  "for batches straddling the 8000-byte limit every datagram must be smaller than 8000 bytes, the concatenation of the decoded datagrams must be the batch minus exactly the spans that cannot fit alone (sizes from an independent encoder cross-checked against the real bytes), in order, and report() must return.",
+  "same as C19", "DESIGN.md §5 C20"),
 }
 
 ORDER = ["C%02d" % i for i in range(1, 21)]
@@ -100,6 +106,8 @@ def main():
         "engines": [
             {"name": "codec", "path": "harness/hx/src/bin/codec.rs", "serves_properties": ["C12"],
              "kind_free_text": "pure-function monitoring of the text codecs against an independent reference"},
+            {"name": "wire", "path": "harness/hw/src/bin/wire.rs", "serves_properties": ["C19", "C20"],
+             "kind_free_text": "real reporters -> loopback UDP / HTTP / capturing exporter -> independent decoders -> field-by-field comparison"},
             {"name": "inert", "path": "harness-inert/src/main.rs", "serves_properties": ["C16"],
              "kind_free_text": "random API sequences against a build without the `enable` feature; counters are the observation"},
             {"name": "hostile", "path": "harness/hx/src/bin/hostile.rs", "serves_properties": ["C07"],
